@@ -291,6 +291,11 @@ def run_hist_engine(ctx, spec):
     ctx.checker_cmds.append(f".cache/harness hist --profile {spec['profile']} --seed {seed} --n {n}; coqc <shards>   # {len(s['shards'])} shards, vm_compute")
     for e in errs:
         ctx.violation("correspondence", "the model could not be evaluated on the recorded cases (Check.v no longer checks): " + e[:1500], found_input=False)
+    # tag WF is not a disagreement: it marks transactions outside the side conditions of the
+    # invariant theorems (StoreProofs6.txn_wf); they are counted, so that the evidence says how
+    # much of what was exercised lies inside the theorems' domain
+    outside = [m for m in mm if m[2] == 11]
+    mm = [m for m in mm if m[2] != 11]
     first = vlib.first_per_case(mm)
     feats = {f["case"]: f for f in (s.get("features") or [])}
     hashes = set()
@@ -308,6 +313,7 @@ def run_hist_engine(ctx, spec):
     cov.setdefault("engines", []).append({
         "engine": "hist", "profile": spec["profile"], "seed": seed, "cases": s["cases"], "distinct": len(hashes),
         "nontrivial": nt, "disagreeing_cases": len(first), "wall_s": round(time.time() - t0, 1),
+        "transactions": s["stats"].get("Txns", 0), "transactions_outside_invariant_hypotheses": len(outside),
         "distribution": s["stats"]})
     for smp in (s.get("samples") or [])[:1]:
         cov["samples"].append({"engine": "hist", "profile": spec["profile"], "history": smp[:4000]})
